@@ -183,6 +183,11 @@ func (n *RawNode) FullString() string {
 
 // LastErr returns the last error encountered (if any) for this node.
 func (n *RawNode) LastErr() error {
+	if n == nil || n.channel == nil {
+		// a node without a channel (not added to a manager yet, or added to
+		// a manager created with WithNoConnect) has not encountered any error.
+		return nil
+	}
 	return n.channel.lastErr()
 }
 
@@ -266,5 +271,5 @@ var Port = func(n1, n2 *RawNode) bool {
 // LastNodeError sorts nodes by their LastErr() status in increasing order. A
 // node with LastErr() != nil is larger than a node with LastErr() == nil.
 var LastNodeError = func(n1, n2 *RawNode) bool {
-	return n1.channel.lastErr() == nil && n2.channel.lastErr() != nil
+	return n1.LastErr() == nil && n2.LastErr() != nil
 }
